@@ -173,6 +173,11 @@ fn apply(real: &mut HCtx, model: &mut RCtx, op: &Op, n: &str, log: &Log) {
             let mut target = HCtx::new();
             target.set_builtin_functions_disabled(!real.are_builtin_functions_disabled()).unwrap();
             target.set_value("stale".into(), Value::Int(1)).unwrap();
+            // ... and its own user function and variable under the name n and under `typeof` (round 12: a
+            // clone_from that merges the function maps lets them survive)
+            target.set_function(n.to_string(), Function::new(|_| Ok(Value::String("stale function of the overwritten context".into())))).unwrap();
+            target.set_function("typeof".to_string(), Function::new(|_| Ok(Value::String("stale typeof of the overwritten context".into())))).unwrap();
+            target.set_value(n.to_string(), Value::String("stale variable of the overwritten context".into())).unwrap();
             target.clone_from(real);
             *real = target;
         },
@@ -369,7 +374,7 @@ pub fn run(cfg: &Cfg) -> Report {
     Report {
         property: ID,
         level: "model_checking",
-        rule: format!("for each of 93 names (49 builtins; foo, math::foo, str::nothing; 14 near-builtin names differing in letter case, namespace or one character; the 3 names that are builtins only with optional features; 24 names of unusual lexical classes: digits and underscores only, a leading digit, non-ASCII symbols, primes, combining marks and letters, invisible characters that are not white space, ASCII punctuation that is no operator): every history of length <= {depth} over {{disable builtins, enable, clone-and-continue, clone_from into a used context, clear_functions, clear_variables, clear, define user function n, define failing user function n, bind variable n}} from an empty HashMapContext (contains the complete switch x user-function x variable x {{as built, clone, cleared}} matrix), plus EmptyContext and EmptyContextWithBuiltinFunctions; in every configuration reached, 36 call forms, each evaluated through `Node::eval_with_context` and (HashMapContext) through `Node::eval_with_context_mut` on a clone (`n(x)`, `n x` with int and string (also without a gap before the quote, followed by an operator, and under a prefix minus), `n()`, `n(x, y)`, `n(x, y, z)`, `typeof n x`, `n typeof x`, bare `n`, `n + 1`); oracle: reference resolution (user function first with the documented argument shape, recorded; else builtin table of C10 if enabled; else unknown function) . States = configurations, transitions = evaluations. Non-trivial = configurations reached by >= 2 operations"),
+        rule: format!("for each of 93 names (49 builtins; foo, math::foo, str::nothing; 14 near-builtin names differing in letter case, namespace or one character; the 3 names that are builtins only with optional features; 24 names of unusual lexical classes: digits and underscores only, a leading digit, non-ASCII symbols, primes, combining marks and letters, invisible characters that are not white space, ASCII punctuation that is no operator): every history of length <= {depth} over {{disable builtins, enable, clone-and-continue, clone_from into a used context (opposite switch, its own function and variable named n, its own `typeof`), clear_functions, clear_variables, clear, define user function n, define failing user function n, bind variable n}} from an empty HashMapContext (contains the complete switch x user-function x variable x {{as built, clone, cleared}} matrix), plus EmptyContext and EmptyContextWithBuiltinFunctions; in every configuration reached, 36 call forms, each evaluated through `Node::eval_with_context` and (HashMapContext) through `Node::eval_with_context_mut` on a clone (`n(x)`, `n x` with int and string (also without a gap before the quote, followed by an operator, and under a prefix minus), `n()`, `n(x, y)`, `n(x, y, z)`, `typeof n x`, `n typeof x`, bare `n`, `n + 1`); oracle: reference resolution (user function first with the documented argument shape, recorded; else builtin table of C10 if enabled; else unknown function) . States = configurations, transitions = evaluations. Non-trivial = configurations reached by >= 2 operations"),
         nontrivial_set: "counter:nontrivial-distinct",
         exhaustive: true,
         bound_completed: format!("histories of length {depth}"),
